@@ -40,6 +40,7 @@ def run(ctx: Ctx, rep: Report) -> None:
     rep.rule("C04-R4", "a constant subscript on a result list is preceded by an established length", floor=2)
     rep.rule("C04-R5", "a missing object (noSuchObject / noSuchInstance value) raises NoSuchOID for the requested OID", floor=3)
     rep.rule("C04-R6", "operations taking a caller-ordered OID list keep one result position per requested OID", floor=1)
+    rep.rule("C04-R11", "the value handed out is the one the agent sent: types created by the decoder without an argument decode their octets on access (shared with C17-R7)", floor=1)
     rep.rule("C04-R10", "a response with a non-zero error-status never reaches the caller as data: it raises, whatever error-index and bindings it carries (shared with C08-R1/R3/R4)", floor=2)
     rep.rule("C04-R9", "the pythonic operations hand OIDs, values and options to the raw operations one-to-one (shared with C15-R4)", floor=5)
     rep.rule("C04-R8", "get-next hands out every lexicographic successor: the progress guard passes requested < retrieved, position by position (shared with C03-R2/R3)", floor=2)
@@ -271,6 +272,9 @@ def run(ctx: Ctx, rep: Report) -> None:
     wm = WalkModel(ctx)
     check_bulk_builder(ctx, rep, wm, "C04-R7", "C04-R7")
     check_bulkget_result(ctx, rep, client)
+    rep.adopt_rules(ctx.sub_run("c17", rep), "C04-R11", ["C17-R7"])
+    # ... and the pythonic view of it is its pythonize(), zero / empty values included
+    rep.adopt_rules(ctx.sub_run("c15", rep), "C04-R11", ["C15-R1"], containing="from_raw")
     rep.adopt_rules(ctx.sub_run("c03", rep), "C04-R8", ["C03-R2", "C03-R3"])
     rep.adopt_rules(ctx.sub_run("c15", rep), "C04-R9", ["C15-R4"])
     rep.adopt_rules(ctx.sub_run("c12", rep), "C04-R9", ["C12-R4"], containing="only in Report")
